@@ -31,7 +31,10 @@ class SendMessageC18(SendMessageSetup):
         foreign = z3.And(v.is_response(m), z3.Not(V.py_eq(v.attr(m, "id"), rid)))
         # the loop goes round again, so whatever was consumed in this iteration is gone for everybody:
         # it must not be somebody else's response
-        return [("C18._await_response.no_foreign_response_is_consumed_and_discarded", z3.Not(foreign),
+        mine = v.is_match(m, rid)
+        return [("C18._await_response.own_response_once_consumed_is_returned_not_discarded", z3.Not(mine),
+                 {"watch": {"req_id": rid, "consumed_id": v.attr(m, "id")}}),
+                ("C18._await_response.no_foreign_response_is_consumed_and_discarded", z3.Not(foreign),
                  {"classes": {"foreign-response-discarded-at-skip-branch": foreign},
                   "watch": {"req_id": rid, "consumed_id": v.attr(m, "id"), "consumed_method": v.attr(m, "method")}})]
 
@@ -72,7 +75,7 @@ class C18(Check):
         # streams: the routing contract (a waiter registered under another id is never handed this message) is
         # re-verified here
         return [SendMessageC18(False, False, id_mode="given"), SendMessageC18(False, False, id_mode="uuid"),
-                C13.RouteMessage()]
+                C13.RouteMessage(), C13.NewRequestStream()]
 
     def loop_invariants(self):
         return {(AWAIT_KEY, 0): SM.await_loop_invariant("C18")}
